@@ -77,17 +77,17 @@ fn models(sc: &Scn) -> Vec<String> {
     // the innermost process: an interrupt, and in the "throw" variant a script that throws after it
     let thrower = if sc.ending == "throw" { "      - uses: acts.transform.code\n        key: boom\n        params: \"throw new Error('boom')\"\n" } else { "" };
     let parent = format!(
-        "id: parent\noutputs:\n  r:\nsteps:\n  - id: s1\n    branches:\n      - id: b1\n        if: \"true\"\n        steps:\n          - id: s11\n            acts:\n              - uses: acts.core.subflow\n                key: call\n{outs}                params:\n                  to: {target}\n                  options:\n                    pid: c1\n                    a: abc\n                    b: 1\n{follow}      - id: b2\n        if: \"true\"\n        steps:\n          - id: s21\n            acts:\n              - uses: acts.core.irq\n                key: pa\n  - id: s2\n"
+        "id: parent\noutputs:\n  r:\nsteps:\n  - id: s1\n    branches:\n      - id: b1\n        if: \"true\"\n        steps:\n          - id: s11\n            acts:\n              - uses: acts.core.subflow\n                key: call\n{outs}                params:\n                  to: {target}\n                  options:\n                    pid: c1\n                    a: abc\n                    b: 1\n                    lvl: 7\n{follow}      - id: b2\n        if: \"true\"\n        steps:\n          - id: s21\n            acts:\n              - uses: acts.core.irq\n                key: pa\n  - id: s2\n"
     );
     let mut v = vec![parent];
     if sc.levels == 2 {
-        v.push(format!("id: child\noutputs:\n  r:\ninputs:\n  r: 0\nsteps:\n  - id: cs1\n    acts:\n      - uses: acts.core.irq\n        key: ca\n{thrower}"));
+        v.push(format!("id: child\noutputs:\n  r:\ninputs:\n  r: 0\n  lvl: 1\nsteps:\n  - id: cs1\n    acts:\n      - uses: acts.core.irq\n        key: ca\n{thrower}"));
     } else {
         let gt = if sc.ending == "missing" { "nosuch" } else { "grand" };
         v.push(format!(
-            "id: child\noutputs:\n  r:\ninputs:\n  r: 0\nsteps:\n  - id: cs1\n    acts:\n      - uses: acts.core.subflow\n        key: call2\n        params:\n          to: {gt}\n          options:\n            pid: g1\n            a: abc\n            b: 1\n"
+            "id: child\noutputs:\n  r:\ninputs:\n  r: 0\n  lvl: 1\nsteps:\n  - id: cs1\n    acts:\n      - uses: acts.core.subflow\n        key: call2\n        params:\n          to: {gt}\n          options:\n            pid: g1\n            a: abc\n            b: 1\n            lvl: 7\n"
         ));
-        v.push(format!("id: grand\noutputs:\n  r:\ninputs:\n  r: 0\nsteps:\n  - id: gs1\n    acts:\n      - uses: acts.core.irq\n        key: ca\n{thrower}"));
+        v.push(format!("id: grand\noutputs:\n  r:\ninputs:\n  r: 0\n  lvl: 1\nsteps:\n  - id: gs1\n    acts:\n      - uses: acts.core.irq\n        key: ca\n{thrower}"));
     }
     v
 }
@@ -272,10 +272,11 @@ pub fn run_one(ch: &mut Chooser, sc: &Scn, want_log: bool) -> RunObs {
             if let Some(root) = d.tasks.iter().find(|t| t.tid == "$") {
                 let data: Value = serde_json::from_str(&root.data).unwrap_or_default();
                 let o = data.as_object().cloned().unwrap_or_default();
-                let mut extra: Vec<String> = o.keys().filter(|k| !["a", "b", "pid", "r", "$parent_pid", "$parent_tid", "data"].contains(&k.as_str()) && !k.starts_with('$')).cloned().collect();
+                let mut extra: Vec<String> = o.keys().filter(|k| !["a", "b", "lvl", "pid", "r", "$parent_pid", "$parent_tid", "data"].contains(&k.as_str()) && !k.starts_with('$')).cloned().collect();
                 extra.sort();
-                if o.get("a") != Some(&json!("abc")) || o.get("b") != Some(&json!(1)) || o.get("$parent_pid") != Some(&json!(*caller)) || !extra.is_empty() {
-                    push("child-inputs".into(), format!("{callee} was started with {data} (call options a=abc, b=1 from {caller}); unexpected keys {extra:?}"));
+                // lvl is also declared by the called model (default 1): the value given in the call wins
+                if o.get("a") != Some(&json!("abc")) || o.get("b") != Some(&json!(1)) || o.get("lvl") != Some(&json!(7)) || o.get("$parent_pid") != Some(&json!(*caller)) || !extra.is_empty() {
+                    push("child-inputs".into(), format!("{callee} was started with {data} (call options a=abc, b=1, lvl=7 from {caller}); unexpected keys {extra:?}"));
                 }
             }
         }
